@@ -105,7 +105,7 @@ def run(prop, tier="quick", seed=0):
                 vacuous.append(ob)
             continue
         if ob.kind == "cover-path":
-            d = dead_paths.setdefault(ob.func, [0, 0])
+            d = dead_paths.setdefault(getattr(ob, "base", ob.name), [0, 0])
             d[0] += 1
             if ob.status == "discharged":
                 d[1] += 1
@@ -114,7 +114,7 @@ def run(prop, tier="quick", seed=0):
             failed.append(ob)
     for fn_, (tot, dead) in dead_paths.items():
         if tot and dead == tot:
-            ob = Obligation(fn_ + "/cover/all-return-paths-infeasible", [], None, kind="cover", func=fn_)
+            ob = Obligation(fn_ + "/all-paths-infeasible", [], None, kind="cover", func=fn_)
             ob.status = "discharged"
             vacuous.append(ob)
     failed_extras = [e for e in extras if not e.ok]
